@@ -12,6 +12,7 @@ import (
 	"net/http/httptest"
 	"sync"
 
+	"github.com/tailscale/setec/audit"
 	"github.com/tailscale/setec/db"
 	"github.com/tailscale/setec/server"
 	"github.com/tailscale/setec/types/api"
@@ -39,6 +40,9 @@ type Srv struct {
 	mu  sync.Mutex
 	who map[string]Who // RemoteAddr -> identity
 	any *Who           // if set, the identity of every address not in who
+
+	// Override, if set, answers every WhoIs call instead of the table.
+	Override func(ctx context.Context, addr string) (*apitype.WhoIsResponse, error)
 }
 
 // NewAnyAddr is like New but answers WhoIs for every source address with w
@@ -51,9 +55,12 @@ func NewAnyAddr(d *db.DB, w Who) (*Srv, error) {
 	return s, err
 }
 
-func New(d *db.DB) (*Srv, error) {
+func New(d *db.DB) (*Srv, error) { return NewWithAudit(d, nil) }
+
+// NewWithAudit is New; the audit writer is only passed through to server.Config (the DB has its own).
+func NewWithAudit(d *db.DB, aw *audit.Writer) (*Srv, error) {
 	s := &Srv{Mux: http.NewServeMux(), who: map[string]Who{}}
-	srv, err := server.New(context.Background(), server.Config{DB: d, WhoIs: s.whois, Mux: s.Mux})
+	srv, err := server.New(context.Background(), server.Config{DB: d, AuditLog: aw, WhoIs: s.whois, Mux: s.Mux})
 	if err != nil {
 		return nil, err
 	}
@@ -69,6 +76,10 @@ func (s *Srv) SetWho(addr string, w Who) {
 
 func (s *Srv) whois(ctx context.Context, addr string) (*apitype.WhoIsResponse, error) {
 	s.mu.Lock()
+	if ov := s.Override; ov != nil {
+		s.mu.Unlock()
+		return ov(ctx, addr)
+	}
 	w, ok := s.who[addr]
 	s.mu.Unlock()
 	if !ok && s.any != nil {
@@ -209,4 +220,20 @@ func (s *Srv) Do(remoteAddr string, op ops.Op) (ops.Result, Reply, bool) {
 	rep := s.Raw("POST", path, remoteAddr, GoodHeaders, body)
 	res, ok := Interpret(op, rep)
 	return res, rep, ok
+}
+
+// ClientDo returns a DoHTTP function for setec.Client that serves the request
+// in-process from the mux, as coming from remoteAddr.
+func (s *Srv) ClientDo(remoteAddr string) func(*http.Request) (*http.Response, error) {
+	return func(req *http.Request) (*http.Response, error) {
+		if err := req.Context().Err(); err != nil {
+			return nil, err
+		}
+		r2 := req.Clone(req.Context())
+		r2.RemoteAddr = remoteAddr
+		r2.RequestURI = req.URL.RequestURI()
+		rec := httptest.NewRecorder()
+		s.Mux.ServeHTTP(rec, r2)
+		return rec.Result(), nil
+	}
 }
